@@ -11,6 +11,7 @@ import TzVerif.Spec.Calendar
 import TzVerif.Proofs.Zoned
 import TzVerif.Proofs.SrcEqZone
 import TzVerif.Proofs.SrcEqFind
+import TzVerif.Proofs.SrcEqCmp
 import TzVerif.Generated.StableC14   -- per run: the current translation (SrcNow) equals the baseline (Src) these theorems are about
 
 namespace TzVerif.C14
@@ -103,6 +104,29 @@ theorem new_correct_src (y mo d h mi s ns : Int) (l : LocalTimeType) :
 theorem projection_src (d : DateTime) (z : TimeZone) (x : DateTime) (hx : Src.DateTime.project d z = .ok x) :
     Inv x ∧ x.unixTime = d.unixTime ∧ x.nanoseconds = d.nanoseconds ∧ d.beq x = true ∧ d.cmp x = 0 :=
   projection d z x (SrcEq.dt_project_eq d z ▸ hx)
+
+/-- `impl PartialEq for DateTime` as the source has it: equal exactly when Unix time and nanoseconds are -/
+theorem equality_src (a b : DateTime) :
+    Src.DateTime.eq a b = true ↔ (a.unixTime = b.unixTime ∧ a.nanoseconds = b.nanoseconds) := by
+  rw [SrcEq.dt_eq_eq]; exact equality a b
+
+/-- `impl PartialOrd for DateTime` as the source has it: always `Some`, lexicographic on (Unix time, nanoseconds);
+`Equal` exactly when `eq` holds — in particular never `Equal` for two different instants, however far from the epoch -/
+theorem ordering_src (a b : DateTime) :
+    (Src.DateTime.partial_cmp a b = some .lt ↔ (a.unixTime < b.unixTime ∨ (a.unixTime = b.unixTime ∧ a.nanoseconds < b.nanoseconds))) ∧
+    (Src.DateTime.partial_cmp a b = some .eq ↔ (a.unixTime = b.unixTime ∧ a.nanoseconds = b.nanoseconds)) ∧
+    (Src.DateTime.partial_cmp a b = some .gt ↔ (a.unixTime > b.unixTime ∨ (a.unixTime = b.unixTime ∧ a.nanoseconds > b.nanoseconds))) ∧
+    (Src.DateTime.partial_cmp a b = some .eq ↔ Src.DateTime.eq a b = true) ∧
+    Src.DateTime.unix_time a = a.unixTime := by
+  have h := ordering a b
+  have hc : a.cmp b = -1 ∨ a.cmp b = 0 ∨ a.cmp b = 1 := by
+    unfold DateTime.cmp; split <;> (try split) <;> (try split) <;> (try split) <;> simp
+  rw [SrcEq.dt_partial_cmp_eq, equality_src]
+  refine ⟨?_, ?_, ?_, ?_, rfl⟩
+  · rw [← h.1]; unfold SrcEq.ordOf; rcases hc with hc | hc | hc <;> simp [hc]
+  · rw [← h.2.1]; unfold SrcEq.ordOf; rcases hc with hc | hc | hc <;> simp [hc]
+  · rw [← h.2.2]; unfold SrcEq.ordOf; rcases hc with hc | hc | hc <;> simp [hc]
+  · rw [← h.2.1]; unfold SrcEq.ordOf; rcases hc with hc | hc | hc <;> simp [hc]
 
 /-- `search_entries` about the translated search (src/datetime/find.rs `find_date_time`) -/
 theorem search_entries_src (y mo d h mi s ns : Int) (z : TimeZone) (rs : List Found) (hh : 0 ≤ h) (hmi : 0 ≤ mi) (hs : 0 ≤ s)
